@@ -4,12 +4,12 @@ package main
 
 import (
 	"fmt"
-	"os"
 	"go/ast"
 	"go/constant"
 	"go/token"
 	"go/types"
 	"math/big"
+	"os"
 	"sort"
 	"strings"
 )
@@ -78,7 +78,7 @@ type Oblig struct {
 	Note     string
 	Template *FamTemplate
 	RetTerms []Value // result values of the finished path (post obligations), for replay
-	Lite     *Term // a stronger, floating-point-free goal (negated guard of an implication); tried first
+	Lite     *Term   // a stronger, floating-point-free goal (negated guard of an implication); tried first
 	Args     []string
 }
 
@@ -86,26 +86,26 @@ type Oblig struct {
 // context (one per verified function instance)
 
 type Ctx struct {
-	U         *Universe
-	Decls     map[string]string
-	DeclOrder []string
-	nfresh    int
-	Known     map[string]Term
-	Obligs    []*Oblig
-	Fn        *FuncInfo
-	Instance  string
-	Untrans   []string // constructs outside the subset met during execution
-	CutRepl   map[string]Term
-	CutSeen   map[string]bool
-	Fam       *FamilySpec
-	ReplVal   *Term
-	FamVars   map[string]SV
+	U           *Universe
+	Decls       map[string]string
+	DeclOrder   []string
+	nfresh      int
+	Known       map[string]Term
+	Obligs      []*Oblig
+	Fn          *FuncInfo
+	Instance    string
+	Untrans     []string // constructs outside the subset met during execution
+	CutRepl     map[string]Term
+	CutSeen     map[string]bool
+	Fam         *FamilySpec
+	ReplVal     *Term
+	FamVars     map[string]SV
 	ForceInline map[string]bool
-	nalloc    int
-	MaxPaths  int
-	Labels    map[string]bool // selected ensures labels (nil = all)
-	NoSafety  bool
-	AxiomsUsed map[string]bool
+	nalloc      int
+	MaxPaths    int
+	Labels      map[string]bool // selected ensures labels (nil = all)
+	NoSafety    bool
+	AxiomsUsed  map[string]bool
 }
 
 func newCtx(u *Universe, fn *FuncInfo) *Ctx {
@@ -156,20 +156,20 @@ func (c *Ctx) untranslatable(pos token.Pos, what string) {
 // paths
 
 type Path struct {
-	C       *Ctx
-	Conds   []Term
-	Vars    map[types.Object]Value
-	Heap    map[string]Term
-	Dead    bool
-	Ret     []Value
-	Returned bool
-	CallOrd map[string]int
-	Trace   []string
-	Depth   int
-	Facts   map[string]Term // atoms assumed on this path (folding)
-	Ghosts  map[string]Value // call-site ghosts: results of designated calls
+	C         *Ctx
+	Conds     []Term
+	Vars      map[types.Object]Value
+	Heap      map[string]Term
+	Dead      bool
+	Ret       []Value
+	Returned  bool
+	CallOrd   map[string]int
+	Trace     []string
+	Depth     int
+	Facts     map[string]Term            // atoms assumed on this path (folding)
+	Ghosts    map[string]Value           // call-site ghosts: results of designated calls
 	GhostHeap map[string]map[string]Term // heap right after the designated call returned (for atreturn(g, e))
-	CutSeen map[string]bool
+	CutSeen   map[string]bool
 }
 
 func (p *Path) clone() *Path {
@@ -520,9 +520,9 @@ func (c *Ctx) constTerm(v constant.Value, t types.Type) (Term, bool) {
 // expression evaluation
 
 type frame struct {
-	fi   *FuncInfo
-	info *types.Info
-	rets *[]*Path // finished paths of this frame
+	fi    *FuncInfo
+	info  *types.Info
+	rets  *[]*Path // finished paths of this frame
 	depth int
 }
 
@@ -758,6 +758,14 @@ func (fr *frame) evalUnary(p *Path, e *ast.UnaryExpr) []PV {
 	if e.Op == token.AND {
 		if cl, ok := e.X.(*ast.CompositeLit); ok {
 			return fr.evalCompositeLit(p, cl, true)
+		}
+		// &buf for a builder/buffer variable: the models of io.Copy / Execute / WriteString rebind the variable itself
+		if id, ok := ast.Unparen(e.X).(*ast.Ident); ok {
+			if obj, ok := fr.info.Uses[id].(*types.Var); ok {
+				if b, ok := p.Vars[obj].(*BuilderVal); ok {
+					return one(p, b)
+				}
+			}
 		}
 		c.untranslatable(e.Pos(), "address-of")
 		return one(p, OpaqueVal{"addr"})
@@ -1257,7 +1265,10 @@ func (fr *frame) evalCompositeLit(p *Path, e *ast.CompositeLit, addr bool) []PV 
 		}
 	case *types.Struct:
 		named, _ := t.(*types.Named)
-		if named == nil || !addr {
+		if named == nil {
+			break
+		}
+		if !addr && !(named.Obj().Pkg() != nil && (named.Obj().Pkg().Path() == "strings" && named.Obj().Name() == "Builder" || named.Obj().Pkg().Path() == "bytes" && named.Obj().Name() == "Buffer")) {
 			break
 		}
 		if named.Obj().Pkg() != nil && (named.Obj().Pkg().Path() == "strings" && named.Obj().Name() == "Builder" || named.Obj().Pkg().Path() == "bytes" && named.Obj().Name() == "Buffer") {
@@ -1539,6 +1550,13 @@ func zeroValueOf(c *Ctx, t types.Type) Value {
 		return &TableVal{MapT: ut}
 	case *types.Slice:
 		return &SliceVal{Known: true, Elems: []Term{}, Len: mkInt(0)}
+	}
+	if named, ok := t.(*types.Named); ok && named.Obj().Pkg() != nil {
+		// var r strings.Builder / var b bytes.Buffer: the zero value is the empty builder (methods are called on the variable)
+		if pp, n := named.Obj().Pkg().Path(), named.Obj().Name(); pp == "strings" && n == "Builder" || pp == "bytes" && n == "Buffer" {
+			c.AxiomsUsed["A4"] = true
+			return &BuilderVal{Content: mkStr("")}
+		}
 	}
 	srt := c.U.sortOfType(t)
 	if srt == SOpaque {
